@@ -849,7 +849,7 @@ def vector_boundaries(tier):
     scripts = []
     esizes = ESIZES
     for e in esizes:
-        for x in (0, 3):
+        for x in (0, 3, 7):     # 7: one function registered as both constructor and destructor
             setups = [
                 ([], 0, 0),
                 (["resize v0 3", "set v0 0 5", "set v0 2 6"], 3, 3),
@@ -1012,7 +1012,7 @@ def random_scripts(rng, count, length, kind):
             es = {}
             for x in ("v0", "v1"):
                 es[x] = rng.choice(ESIZES)
-                sc.append("init %s %d %d" % (x, es[x], rng.choice((0, 1, 2, 3))))
+                sc.append("init %s %d %d" % (x, es[x], rng.choice((0, 1, 2, 3, 7))))
             for _ in range(length):
                 x = rng.choice(("v0", "v1"))
                 r = rng.random()
